@@ -47,6 +47,9 @@ def rt(kind, obj, absfn, printer, parser, src):
         ev["text"] = ab.enc(text)
         if kind in ("dfa", "nfa", "pda", "tm"):
             ev["plines"] = printed_lines(kind, text)
+        if kind == "cfg":
+            ev["ptext"] = grammar_lines(text)
+            ev["gobj"] = ab.cfg(obj)          # rule list in the grammar's own order (the printer follows it)
         if exc == "none":
             ev["parsed"] = absfn(obj2)
             # history: the first parse result is changed in place, then the SAME text is parsed again - the
@@ -82,6 +85,21 @@ def printed_lines(kind, text):
             out.append({"k": "kw", "t": [ab.enc(x) for x in w]})
         else:
             out.append({"k": "tr", "t": [ab.enc(x) for x in w[:2]] + [c17.lab(kind, x) for x in w[2:]]})
+    return out
+
+
+def grammar_lines(text):
+    """a printed simple grammar as the lines of GrammarText.tla"""
+    out = []
+    for ln in text.split("\n"):
+        ln = ln.strip()
+        if not ln:
+            continue
+        if ln.startswith("epsilon"):
+            out.append({"k": "decl", "e": ab.enc(ln.split("=")[1].strip())})
+        else:
+            lhs, rhs = ln.split("->")
+            out.append({"k": "rule", "lhs": ab.enc(lhs.strip()), "alts": [[ab.enc(c) for c in a.strip()] for a in rhs.split("|")]})
     return out
 
 
@@ -230,9 +248,12 @@ def drive(task):
         for rules in cfgsrc.SPECIAL:
             yield from events({"kind": "cfg_rules", "rules": [list(r) for r in rules]})
             yield from events({"kind": "cfg_rules", "rules": [list(r) for r in rules], "eps": "e"})
+            # the glyph as an ORDINARY terminal (the grammar's epsilon being "_"): still a simple-format grammar
+            yield from events(cfgsrc.eps_as_terminal({"kind": "cfg_rules", "rules": [list(r) for r in rules]}))
     elif k == "rnd_cfg":
         for i in range(task["count"]):
-            yield from events(dict(cfgsrc.random_src(rng), eps=rng.choice(["ε", "_", "e"])))
+            src = dict(cfgsrc.random_src(rng), eps=rng.choice(["ε", "_", "e"]))
+            yield from events(cfgsrc.eps_as_terminal(src) if i % 6 == 5 else src)
 
 
 def redrive(src):
@@ -246,12 +267,15 @@ MODELS = {"quick": [("RoundTrip", "RoundTrip_dfa.cfg", "print_dfa then the line 
                     ("RoundTripPT", "RoundTripPT_pda.cfg", "print_pda then parser + PDABuilder, all PDAs on 2 states over {a} / "
                      "{X} with <= 2 moves, all label orders", {"allow_untaken": True}),
                     ("RoundTripPT", "RoundTripPT_tm.cfg", "print_tm then parser + TMBuilder, all TMs on 2 states over {a} with "
-                     "<= 2 moves", {"allow_untaken": True})],
+                     "<= 2 moves", {"allow_untaken": True}),
+                    ("GrammarRT", "GrammarRT_fixed.cfg", "cfg_print_simple then SimpleCFGParser line by line: all rule lists with "
+                     "<= 3 rules, right-hand sides <= 2 over {S,A,a,glyph}; the glyph is also a terminal", {"allow_untaken": True})],
           "thorough": [("RoundTrip", "RoundTrip_dfa3.cfg", "all DFA(3,{a,b})", {"allow_untaken": True}),
                        ("RoundTrip", "RoundTrip_nfa2ab.cfg", "all NFAs on 2 states over {a,b} with epsilon", {"allow_untaken": True}),
                        ("RoundTripPT", "RoundTripPT_pda_t.cfg", "all PDAs on 2 states with <= 3 moves", {"allow_untaken": True}),
                        ("RoundTripPT", "RoundTripPT_tm_t.cfg", "all TMs on 3 states over {a}, tape {a,x,blank}, <= 2 moves",
-                        {"allow_untaken": True})]}
+                        {"allow_untaken": True}),
+                       ("GrammarRT", "GrammarRT_t.cfg", "grammar round trip, <= 3 rules over {S,A,a,b,glyph}", {"allow_untaken": True})]}
 RULE = ("DFAs (DFA(3,{a,b}) under five naming schemes, random incl. empty alphabet and digits), NFAs (NFA(2,{a,b}), "
         "random; epsilon in {U+03B5,_,e}), PDAs (2-state universe, hand-written, random), TMs (all 169 one-state "
         "machines also with empty input alphabet, random with blank in {_,U+25A1,B}), regular expressions (all trees "
